@@ -6,7 +6,8 @@ import random
 LITS = ["a", "b", "ab", "A", "x.y", "..", ".", "é", "É", "c", "B", "1", "a b", "ǆ", "s", "k", "中", "\\*", "\\[x\\]", "-",
         "a+b", "x|y", "^a", "a#", "R&D", "~a", "a&&b", "a~~b", "\\{a\\}", "a\\,b", "%", "=", "@", "!a", "a-b", ";", "'", "\""]
 CLASS_CHARS = list("abcxyzABC019") + list("&~^|.+#$*?(){},:<> !%=@;'\"_") + ["é", "É", "ǆ", "中", "/", "[", "]", "-", "&&", "~~", "--"]
-CLASSES = ["[ab]", "[!a]", "[a-c]", "[\\[\\]]", "[/]", "[c-ax]", "[!/]", "[a\\-z]", "[A-Z]", "[é]", "[!a-c]", "[a/]"]
+CLASSES = ["[ab]", "[!a]", "[a-c]", "[\\[\\]]", "[/]", "[c-ax]", "[!/]", "[a\\-z]", "[A-Z]", "[é]", "[!a-c]", "[a/]",
+           "[é-a]", "[é-ax]", "[a-é]", "[😀-a]", "[€-z]x", "[!é-a]", "[a-a]", "[愛-愛]", "[0-9_-_]"]
 BOUNDS = ["", ":", ":1", ":2", ":0,1", ":1,", ":0,", ":1,3", ":2,4", ":3", ":0,2", ":1,1", ":2,"]
 BAD_BOUNDS = [":3,1", ":0,0", ":0", ":01", ":18446744073709551616", ":4294967296", ":1,4294967296"]
 
@@ -50,7 +51,7 @@ class ExprGen:
         self.max_depth = max_depth
         self.trees, self.flags, self.classes, self.branches = trees, flags, classes, branches
         self.lits = lits or LITS
-        self.cls = CLASSES if bad_classes else [c for c in CLASSES if c not in ("[/]", "[c-ax]", "[a/]")]
+        self.cls = CLASSES if bad_classes else [c for c in CLASSES if c not in ("[/]", "[c-ax]", "[a/]", "[é-a]", "[é-ax]", "[😀-a]", "[€-z]x", "[!é-a]")]
 
     def seq(self, d, left_b, right_b, edge_ok, at_start_of_sub=True, maxlen=4):
         """A concatenation. left_b/right_b: the outside neighbour may be a boundary.
@@ -432,4 +433,19 @@ def sibling_ranges_family():
             for x, y in bodies:
                 core = "<%s%s><%s%s>" % (x, b1, y, b2)
                 out += [core + "c", "x/" + core + "c", core, "{" + core + "c,d}", core + "<c/:1,2>d"]
+    return list(dict.fromkeys(out))
+
+
+
+def both_edges_family():
+    """an alternative (or repetition body) that BEGINS and ENDS with a boundary or a zero-or-more wildcard, with every kind of
+    neighbour on either side: the rules about the two ends of a branch are checked by separate arms"""
+    starts = ["**/", "/", "*", "/**/", "a"]
+    ends = ["/**", "/", "*", "$", "/**/", "a"]
+    out = []
+    for s0 in starts:
+        for e0 in ends:
+            body = s0 + "a" + e0
+            for l, r in [("x", "/y"), ("x", "*y"), ("", "/y"), ("", "*y"), ("x/", "y"), ("x*", "y"), ("x", "/**/y"), ("x", "y"), ("c/", "/y"), ("", "")]:
+                out += [l + "{" + body + ",b}" + r, l + "{b," + body + "}" + r, l + "{c,{" + body + ",b}}" + r, l + "<" + body + ":1,3>" + r]
     return list(dict.fromkeys(out))
